@@ -1,7 +1,88 @@
-(** C07 - placeholder obligations until PathsProofs lands. *)
-From Coq Require Import ZArith List.
-From V Require Import Base Perm PermProofs.
-Theorem C07_inverse_generator_undoes : forall (A : Type) (d : A) p (x : list A), Perm p -> length x = length p ->
-  apply_perm d (inverse_perm p) (apply_perm d p x) = x /\ apply_perm d p (apply_perm d (inverse_perm p) x) = x.
-Proof. exact @inverse_undoes. Qed.
-Print Assumptions C07_inverse_generator_undoes.
+(** C07 - Random walks only visit real vertices along real edges with honest step counts. Statements only: every proof is [exact] of a lemma proved elsewhere.
+    For ALL values of the random draws (oracle arguments: generator choices, torch.randperm). reach [start] k t = t is the end of a walk of exactly k edges from start.
+    The nbt theorem needs a well-formed permutation oracle (entries in range) and, at history depth 0, at least one generator (every definition has one).
+    (Statements are the lemmas' closed types as printed by Coq, hence the qualified names.) *)
+From V Require Import Base Tensor Graph GraphProofs GraphImpl BfsStep Walks WalksProofs.
+
+(* classic mode: width*length rows, y counts the steps 0..length-1, starts with the start state, consecutive states joined by an edge, honest step counts *)
+Theorem C07_walks_classic_spec :
+  forall (G : impl) (start : state) (width length_ : nat) (draws : list (list nat))
+           (x : list state) (y : list nat),
+         1 <= length_ ->
+         length_ - 1 <= length draws ->
+         List.Forall
+           (fun d : list nat => length d = width /\ List.Forall (fun g : nat => g < n_gens G) d)
+           draws ->
+         walks_classic G width length_ start draws = (x, y) ->
+         length x = width * length_ /\
+         length y = width * length_ /\
+         (forall i : nat, i < width * length_ -> List.nth i y 0 = PeanoNat.Nat.div i width) /\
+         (forall i : nat, i < width -> List.nth i x nil = start) /\
+         (forall i : nat,
+          i + width < width * length_ ->
+          exists g : state -> state,
+            List.In g (acts G) /\ List.nth (i + width) x nil = g (List.nth i x nil)) /\
+         (forall i : nat,
+          i < width * length_ ->
+          reach state (acts G) (start :: nil) (List.nth i y 0) (List.nth i x nil)).
+Proof. exact @walks_classic_spec. Qed.
+Print Assumptions C07_walks_classic_spec.
+
+(* nbt mode, EVERY history depth including the default 0: starts with the start state, every x[i] is the end of a walk of exactly y[i] edges *)
+Theorem C07_walks_nbt_spec :
+  forall (G : impl) (start : state) (width length_ depth : nat) (perms : list (list nat))
+           (x : list state) (y : list nat),
+         1 <= length_ ->
+         1 <= width ->
+         List.Forall (fun p : list nat => List.Forall (fun i : nat => i < length p) p) perms ->
+         (depth = 0 -> 1 <= n_gens G) ->
+         walks_nbt G width length_ depth start perms = Ok (x, y) ->
+         length x = length y /\
+         (forall i : nat, i < width -> List.nth i x nil = start /\ List.nth i y 0 = 0) /\
+         (forall i : nat,
+          i < length x -> reach state (acts G) (start :: nil) (List.nth i y 0) (List.nth i x nil)).
+Proof. exact @walks_nbt_spec. Qed.
+Print Assumptions C07_walks_nbt_spec.
+
+(* bfs mode: starts with the start state, all returned states distinct, honest step counts *)
+Theorem C07_walks_bfs_spec :
+  forall (G : impl) (start : state) (U : state -> Prop),
+         closed state (acts G) U ->
+         (forall a b : state, U a -> U b -> hashf G a = hashf G b -> a = b) ->
+         (is_identity G = true -> forall a : state, U a -> unword G (hashf G a) = a) ->
+         U start ->
+         forall (width length_ : nat) (perms : list (list nat)) (x : list state) (y : list nat),
+         1 <= length_ ->
+         1 <= width ->
+         List.Forall
+           (fun p : list nat => List.NoDup p /\ List.Forall (fun i : nat => i < length p) p) perms ->
+         walks_bfs G width length_ start perms = Ok (x, y) ->
+         length x = length y /\
+         List.nth 0 x nil = start /\
+         List.nth 0 y 1 = 0 /\
+         List.NoDup x /\
+         (forall i : nat,
+          i < length x -> reach state (acts G) (start :: nil) (List.nth i y 0) (List.nth i x nil)).
+Proof. exact @walks_bfs_spec. Qed.
+Print Assumptions C07_walks_bfs_spec.
+
+(* bfs mode, width >= largest layer and length > eccentricity: exactly all vertices with their true distances *)
+Theorem C07_walks_bfs_exhaustive :
+  forall (G : impl) (start : state) (U : state -> Prop),
+         closed state (acts G) U ->
+         (forall a b : state, U a -> U b -> hashf G a = hashf G b -> a = b) ->
+         (is_identity G = true -> forall a : state, U a -> unword G (hashf G a) = a) ->
+         U start ->
+         forall (width length_ : nat) (perms : list (list nat)) (x : list state) 
+           (y : list nat) (D : nat),
+         1 <= width ->
+         (forall i : nat, length (layer state st_eq_dec (acts G) (start :: nil) i) <= width) ->
+         layer state st_eq_dec (acts G) (start :: nil) (S D) = nil ->
+         D < length_ ->
+         walks_bfs G width length_ start perms = Ok (x, y) ->
+         List.NoDup x /\
+         (forall (t : state) (d : nat),
+          (exists i : nat, i < length x /\ List.nth i x nil = t /\ List.nth i y 0 = d) <->
+          List.In t (layer state st_eq_dec (acts G) (start :: nil) d)).
+Proof. exact @walks_bfs_exhaustive. Qed.
+Print Assumptions C07_walks_bfs_exhaustive.
